@@ -493,7 +493,9 @@ func GenMerge(t *rapid.T, ctx *Ctx, sc *Scenario, cfg CaseCfg, depth int, label 
 			for _, f := range src.Exp.Fields {
 				has[f] = true
 			}
-			if has["a"] && has["b"] && !has["a,b"] && rapid.Bool().Draw(t, fmt.Sprintf("%s.%d:mergeNames", label, i)) {
+			// (only when the scenario never gives "a,b" doc values: the renamed instances carry the terms of "a" and
+			// "b", which may contain 0xff, and per-field doc-value flags must stay uniform for the rebuild oracle)
+			if has["a"] && has["b"] && !has["a,b"] && sc.Schema["a,b"] == dvNever && rapid.Bool().Draw(t, fmt.Sprintf("%s.%d:mergeNames", label, i)) {
 				// ... and with the fields "a" and "b" both renamed to "a,b": another field list that reads the same
 				// when its names are joined with commas
 				what = "documents of an earlier input with fields a and b renamed to \"a,b\""
